@@ -23,9 +23,12 @@ def case(op, *groups):
 
 
 # ---------------------------------------------------------------------------------------------- oracles
-_lib = ctypes.CDLL(ctypes.util.find_library("crypt") or "libcrypt.so.1")
-_lib.crypt.restype = ctypes.c_char_p
-_lib.crypt.argtypes = [ctypes.c_char_p, ctypes.c_char_p]
+try:
+    _lib = ctypes.CDLL(ctypes.util.find_library("crypt") or "libcrypt.so.1")
+    _lib.crypt.restype = ctypes.c_char_p
+    _lib.crypt.argtypes = [ctypes.c_char_p, ctypes.c_char_p]
+except OSError:
+    _lib = None          # no libcrypt here: the extracted textbook-DES specification and perl remain as references
 
 
 def cstr(pw):
@@ -36,6 +39,8 @@ def cstr(pw):
 
 def libcrypt(pw, salt):
     """traditional DES crypt(3) of the C string pw (raw bytes, cut at the first NUL); None if libcrypt refuses the salt"""
+    if _lib is None:
+        return None
     r = _lib.crypt(cstr(pw), bytes(salt[:2]))
     if r is None or len(r) != 13 or r.startswith(b"*"):
         return None
